@@ -1,5 +1,31 @@
 //! Non-scheduler events from mmtk-core hooks (page grants/releases, mmap calls, chunks, ...).
 
-use crate::world::World;
+use crate::world::{violation, World};
+use mmtk::util::verif::rt::ev;
 
-pub fn on_event(_w: &mut World, _tid: usize, _kind: u32, _a: usize, _b: usize, _c: usize) {}
+/// An allocation whose slow path iterates more often than this without returning is treated as
+/// non-terminating (C03).  A legitimate call iterates once per GC it blocks for and gives up
+/// after an emergency GC: a handful of iterations.
+pub const ALLOC_SLOW_ITER_LIMIT: u64 = 2000;
+
+pub fn on_event(w: &mut World, tid: usize, kind: u32, a: usize, b: usize, _c: usize) {
+    match kind {
+        ev::ALLOC_SLOW_ITER => {
+            if b == 1 {
+                let n = w.alloc_slow_iters.entry(tid).or_insert(0);
+                *n += 1;
+                if *n > ALLOC_SLOW_ITER_LIMIT {
+                    violation(
+                        "C03",
+                        "alloc-does-not-terminate",
+                        format!(
+                            "alloc(size {}) has iterated the slow path {} times without returning",
+                            a, n
+                        ),
+                    );
+                }
+            }
+        }
+        _ => {}
+    }
+}
